@@ -27,6 +27,11 @@ func genSweep(prop string) func(seed uint64, tier string) *Tape {
 		t.Cfg["target"] = int64(rng.IntN(2)) // 0 = the leader, 1 = a follower
 		t.Cfg["double"] = int64(rng.IntN(3) / 2)
 		t.Cfg["transfer"] = int64(rng.IntN(2))
+		// one workload in ten also gets a stop/crash point behind a log that is
+		// bigger than the sizes internal buffers happen to have (cf. bigadd)
+		if rng.IntN(10) == 0 {
+			t.Cfg["fix_big"] = int64(1050 + rng.IntN(500))
+		}
 		for i := 0; i < c; i++ {
 			s := Step{Op: "add", K: 1, Kind: "api", Data: "sync", X: int64([]int{0, 0, 1, 2}[rng.IntN(4)])}
 			if rng.IntN(2) == 0 {
@@ -234,8 +239,44 @@ func execC07(r *Run) {
 		sc := sc
 		r.Guard(func() { runSweepScenario(r, sc) })
 	}
+	r.Guard(func() { bigStopScenario(r, "crash") })
 	r.Sample(map[string]interface{}{"seed": r.Tape.Seed, "commands": len(r.Tape.Steps), "nodes": r.Cfg("nodes"),
 		"scenarios_enumerated": len(plan), "first_scenarios": fmt.Sprint(plan[:min(4, len(plan))]), "workload": r.Tape.Steps})
+}
+
+// bigStopScenario: stop (clean or crash) and restart behind a big log, on a
+// single node and on a follower of a 3-node cluster.
+func bigStopScenario(r *Run, mode string) {
+	big := int(r.Cfg("fix_big"))
+	if big == 0 {
+		return
+	}
+	n := int(r.Cfg("nodes"))
+	if n < 1 {
+		n = 1
+	}
+	w := newWorldAN(r, n)
+	defer w.e.destroy()
+	e := w.e
+	e.elect(e.nodes[0])
+	target := e.nodes[n-1]
+	r.Logf("scenario big-log stop (%s) of %s behind %d events", mode, target.name, big)
+	w.step(Step{Op: "bigadd", K: big})
+	w.heal()
+	e.stopNode(target, mode)
+	e.startNode(target)
+	w.heal()
+	w.doAdd(Step{Op: "add", K: 3, Kind: "api", Data: "sync"})
+	w.doAdd(Step{Op: "add", K: 1, Kind: "api", Data: "sync"})
+	w.heal()
+	w.checkAgreement("recovered-state")
+	for _, nd := range e.nodes {
+		w.checkNodeVersion(nd)
+		w.queryMembership(Step{Op: "qmem", Node: nd.id, K: 12})
+		w.queryConsistency(Step{Op: "qinc", Node: nd.id, K: 4})
+	}
+	r.Count("sweep.big_log_scenarios")
+	r.Distinct(fmt.Sprintf("big:%s:%d", mode, big))
 }
 
 func execC08(r *Run) {
@@ -244,6 +285,7 @@ func execC08(r *Run) {
 		sc := sc
 		r.Guard(func() { runSweepScenario(r, sc) })
 	}
+	r.Guard(func() { bigStopScenario(r, "clean") })
 	r.Sample(map[string]interface{}{"seed": r.Tape.Seed, "commands": len(r.Tape.Steps), "nodes": r.Cfg("nodes"),
 		"stop_points_enumerated": len(plan), "workload": r.Tape.Steps})
 }
